@@ -81,6 +81,13 @@ RABBIT_THEOREMS = {
 }
 
 
+STOP_MODULE = "RepidProofs.Props.StopRedis"
+STOP_THEOREMS = {
+    "C03": ["rejectAll_places", "stop_conserves", "reject_clears_in_flight", "stop_leaves_fetching_in_flight_witness"],
+    "C10": ["stop_conserves", "reject_clears_in_flight", "stop_leaves_fetching_in_flight_witness"],
+}
+
+
 def theorem_names(pid: str) -> list[str]:
     f = LEAN / "RepidProofs" / "Props" / f"{pid}.lean"
     if not f.exists():
@@ -163,6 +170,12 @@ def _run(pid: str, thorough: bool) -> dict:
         rcr, outr = _sh(["lake", "build", REDIS_MODULE])
         log += outr
         redis_ok = rcr == 0
+    stop_names = [f"Repid.StopRedisProofs.{n}" for n in STOP_THEOREMS.get(pid, [])]
+    stop_ok = True
+    if stop_names:
+        rcs, outs = _sh(["lake", "build", STOP_MODULE])
+        log += outs
+        stop_ok = rcs == 0
     rabbit_names = [f"Repid.RabbitProofs.{n}" for n in RABBIT_THEOREMS.get(pid, [])]
     rabbit_ok = True
     if rabbit_names:
@@ -177,8 +190,9 @@ def _run(pid: str, thorough: bool) -> dict:
     if rc == 0:
         audit.write_text(f"import {module}\n" + (f"import {REDIS_MODULE}\n" if redis_names and redis_ok else "") +
                          (f"import {RABBIT_MODULE}\n" if rabbit_names and rabbit_ok else "") +
+                         (f"import {STOP_MODULE}\n" if stop_names and stop_ok else "") +
                          "".join(f"#print axioms {n}\n" for n in names + (redis_names if redis_ok else []) +
-                                 (rabbit_names if rabbit_ok else [])))
+                                 (rabbit_names if rabbit_ok else []) + (stop_names if stop_ok else [])))
         rc2, out2 = _sh(["lake", "env", "lean", str(audit)])
         log += out2
         axioms = parse_axioms(out2)
@@ -199,6 +213,11 @@ def _run(pid: str, thorough: bool) -> dict:
         if not redis_ok:
             for n in redis_names:
                 undischarged[n] = "Props/Redis.lean does not build: " + outr[-600:]
+    if stop_names:
+        names = names + stop_names
+        if not stop_ok:
+            for n in stop_names:
+                undischarged[n] = "Props/StopRedis.lean does not build: " + outs[-600:]
     if rabbit_names:
         names = names + rabbit_names
         if not rabbit_ok:
